@@ -38,7 +38,7 @@ def find_tables(v, adt, out, depth=0):
             find_tables(f, adt, out, depth + 1)
 
 
-def wellformed(env, kind, it, st, v, n):
+def wellformed(env, kind, it, st, v, n, pc=()):
     K = env.kinds[kind]
     try:
         words = K.words(it, st, v)
@@ -65,7 +65,13 @@ def wellformed(env, kind, it, st, v, n):
         if b is None:
             tops += 1
         elif b != ZERO:
-            return REFUTED, "bit %d (>= 2^%d) can be set: %s, e.g. under %s" % (p, n, B.describe(b), {B.ATOMS.name(a): x for a, x in (B.sat_assignment(b) or {}).items()})
+            s, w = pc_status(pc, extra=(W(1, bits=[b]),))
+            if s == "unsat":
+                continue
+            if s == "unknown":
+                tops += 1
+                continue
+            return REFUTED, "bit %d (>= 2^%d) can be set: %s, e.g. under %s" % (p, n, B.describe(b), w)
     if tops:
         return UNDECIDED, "%d unused bits are top" % tops
     return PROVED, ""
@@ -87,11 +93,9 @@ def outcome_tables_ok(env, kind, it, outs, mut_ptrs, n, need_return=True):
             tabs.append(it.read_ptr(o.state, p))
         for t in tabs:
             nt += 1
-            v, d = wellformed(env, kind, it, o.state, t, n)
+            v, d = wellformed(env, kind, it, o.state, t, n, o.pc)
             if v == REFUTED:
-                if s == "sat":
-                    return REFUTED, d
-                v = UNDECIDED
+                return REFUTED, d
             if v == UNDECIDED and worst[0] == PROVED:
                 worst = (UNDECIDED, d)
     if need_return and not rets:
@@ -261,7 +265,7 @@ def run(chk):
                         if name == "from_blocks":
                             o, v, d = single_return(outs)
                             if o is not None:
-                                v, d = check_table_value(env, kind, it, o.state, o.value, n, S.identity(n, "blk"))
+                                v, d = check_table_value(env, kind, it, o.state, o.value, n, S.identity(n, "blk"), o.pc)
                                 d = d and "from_blocks does not copy verbatim: " + d
                         else:
                             v, d = outcome_tables_ok(env, kind, it, outs, muts, n, need_return=(name not in ("from_hex_string",)))
